@@ -14,7 +14,10 @@ Mnemonic → operation (trusted; validated end to end against gcc/the CPU by che
   AT&T `op src, dst` computes dst := dst op src.  `ucomis* src, dst` compares dst ? src.
   `faddp/fmulp` : st(1) := st(1) op st(0), pop.  GNU as' AT&T `fsubrp` / `fdivrp` (no operands) assemble to the
   instructions that compute st(1) := st(1) − st(0) / st(1) ÷ st(0) (the historical operand swap of AT&T syntax), pop.
-  `fcomip/fucomip` compare st(0) ? st(1), set ZF/PF/CF (OF, SF := 0), pop once.
+  `fcomip/fucomip` compare st(0) ? st(1), set ZF/PF/CF (OF, SF := 0), pop once; `fcomi %st(1), %st` does not pop.
+  `fsub %st(1), %st` : st(0) := st(0) − st(1);  `fstp %st(1)` : st(1) := st(0), pop;  `fxch %st(1)` exchanges st(0), st(1).
+  `comiss/comisd src, dst` compare dst ? src like `ucomis*`;  `movd %r32, %xmm` zero-extends;  `btc $n, %r64` complements bit n;
+  `cvtsi2ss %r64, %xmm` converts the signed 64-bit register;  `mov $0x…, %reg` loads the immediate.
 -/
 import ChibiVerif.Model.X86
 import ChibiVerif.Spec.FpuSpec
@@ -77,6 +80,26 @@ def FState.setGpr64 (s : FState) (n : String) (v : BitVec 64) : Option FState :=
   | some (r, .w64) => some { s with x := s.x.set r v }
   | _ => none
 
+/-! ### `$0x…` immediates (the translator keeps their spelling: `.s "$0x5f000000"`) -/
+
+def hexDigit? (c : Char) : Option Nat :=
+  if '0' ≤ c ∧ c ≤ '9' then some (c.toNat - '0'.toNat)
+  else if 'a' ≤ c ∧ c ≤ 'f' then some (c.toNat - 'a'.toNat + 10)
+  else if 'A' ≤ c ∧ c ≤ 'F' then some (c.toNat - 'A'.toNat + 10)
+  else none
+
+def hexList? : List Char → Nat → Option Nat
+  | [], acc => some acc
+  | c :: cs, acc => match hexDigit? c with
+    | some d => hexList? cs (acc * 16 + d)
+    | none => none
+
+/-- value of an immediate spelled `$0x<hex digits>` -/
+def hexImm? (s : String) : Option Nat :=
+  match s.toList with
+  | '$' :: '0' :: 'x' :: d :: ds => hexList? (d :: ds) 0
+  | _ => none
+
 /-- x87 binary operation of the `f…p` family: st(1) := f st(1) st(0); pop -/
 def FState.x87bin (s : FState) (f : BitVec 80 → BitVec 80 → BitVec 80) : Option FState :=
   match s.st with
@@ -96,6 +119,8 @@ def step (F : FpuSpec) (i : Ins) (s : FState) : Option FState :=
       let v ← s.gpr64 g; let _ ← s.xget x; s.xset x (F.cvtsi2sd64 v)
   | "cvtsi2sd", [.r g, .r x] => do      -- operand size from the 64-bit register
       let v ← s.gpr64 g; let _ ← s.xget x; s.xset x (F.cvtsi2sd64 v)
+  | "cvtsi2ss", [.r g, .r x] => do      -- operand size from the 64-bit register
+      let v ← s.gpr64 g; let old ← s.xget x; s.xset x (setLow32 old (F.cvtsi2ss64 v))
   /- floating → integer (SSE, truncating) -/
   | "cvttss2sil", [.r x, .r g] => do
       let v ← s.xget x; s.setGpr32 g (F.cvttss2si32 (v.setWidth 32))
@@ -115,6 +140,13 @@ def step (F : FpuSpec) (i : Ins) (s : FState) : Option FState :=
       match s.gpr64 g, s.xget x with
       | some v, some _ => s.xset x v
       | _, _ => (X86.step i s.x).map fun x' => { s with x := x' }
+  | "movd", [.r g, .r x] => do          -- 32-bit GPR → XMM: zero-extended
+      let v ← s.gpr32 g; let _ ← s.xget x; s.xset x (v.setWidth 64)
+  | "mov", [.s imm, .r g] =>            -- `mov $0x…, %r32|%r64` (64-bit: the assembler picks `movabs` when needed)
+      match hexImm? imm, regOf g with
+      | some v, some (r, .w64) => if v < 2 ^ 64 then some { s with x := s.x.set r (BitVec.ofNat 64 v) } else none
+      | some v, some (r, .w32) => if v < 2 ^ 32 then some { s with x := s.x.setW r .w32 (BitVec.ofNat 32 v) } else none
+      | _, _ => none
   | "movss", [.r x, m] => do
       let v ← s.xget x; let a ← s.addr m; some { s with x := s.x.write32 a (v.setWidth 32) }
   | "movss", [m, .r x] => do
@@ -148,6 +180,11 @@ def step (F : FpuSpec) (i : Ins) (s : FState) : Option FState :=
       let va ← s.xget a; let vb ← s.xget b; some (s.setRel (F.ucomiss (vb.setWidth 32) (va.setWidth 32)))
   | "ucomisd", [.r a, .r b] => do
       let va ← s.xget a; let vb ← s.xget b; some (s.setRel (F.ucomisd vb va))
+  /- `comis*`: the flag results of `ucomis*` (F.comiss / F.comisd carry the same contract) -/
+  | "comiss", [.r a, .r b] => do
+      let va ← s.xget a; let vb ← s.xget b; some (s.setRel (F.comiss (vb.setWidth 32) (va.setWidth 32)))
+  | "comisd", [.r a, .r b] => do
+      let va ← s.xget a; let vb ← s.xget b; some (s.setRel (F.comisd vb va))
   /- x87 loads -/
   | "flds", [m] => do let a ← s.addr m; some { s with st := F.fld32 (s.x.read32 a) :: s.st }
   | "fldl", [m] => do let a ← s.addr m; some { s with st := F.fld64 (s.x.read64 a) :: s.st }
@@ -190,6 +227,14 @@ def step (F : FpuSpec) (i : Ins) (s : FState) : Option FState :=
       match s.st with
       | _ :: rest => some { s with st := rest }
       | [] => none
+  | "fstp", [.r "%st(1)"] =>           -- st(1) := st(0); pop
+      match s.st with
+      | a :: _ :: rest => some { s with st := a :: rest }
+      | _ => none
+  | "fxch", [.r "%st(1)"] =>
+      match s.st with
+      | a :: b :: rest => some { s with st := b :: a :: rest }
+      | _ => none
   /- x87 control word -/
   | "fnstcw", [m] => do let a ← s.addr m; some { s with x := s.x.write16 a s.cw }
   | "fldcw", [m] => do let a ← s.addr m; some { s with cw := s.x.read16 a }
@@ -203,10 +248,18 @@ def step (F : FpuSpec) (i : Ins) (s : FState) : Option FState :=
   | "fsubrp", [] => s.x87bin (F.fsub s.cw)
   | "fmulp", [] => s.x87bin (F.fmul s.cw)
   | "fdivrp", [] => s.x87bin (F.fdiv s.cw)
+  | "fsub", [.r "%st(1)", .r "%st"] =>  -- st(0) := st(0) − st(1) (destination %st: no AT&T operand swap)
+      match s.st with
+      | a :: b :: rest => some { s with st := F.fsub s.cw a b :: b :: rest }
+      | _ => none
   | "fchs", [] =>
       match s.st with
       | v :: rest => some { s with st := F.fchs v :: rest }
       | [] => none
+  | "fcomi", [.r "%st(1)", .r "%st"] => -- compare st(0) ? st(1); no pop
+      match s.st with
+      | a :: b :: _ => some (s.setRel (F.fcomi a b))
+      | _ => none
   | "fcomip", [] | "fucomip", [] =>
       match s.st with
       | a :: b :: rest => some ({ s with st := b :: rest }.setRel (F.fcomi a b))
@@ -214,6 +267,12 @@ def step (F : FpuSpec) (i : Ins) (s : FState) : Option FState :=
   /- integer forms Model/X86 does not decode -/
   | "or", [.i n, .r "%ah"] =>      -- bits 15:8 of %rax
       some { s with x := s.x.set .rax (s.x.get .rax ||| ((BitVec.ofInt 64 n &&& 255) <<< 8)) }
+  | "btc", [.i n, .r g] =>         -- complement bit n of a 64-bit register (CF := the old bit; OF SF PF undefined)
+      if 0 ≤ n ∧ n < 64 then
+        match regOf g with
+        | some (r, .w64) => some { s with x := { (s.x.set r (s.x.get r ^^^ (1#64 <<< n.toNat))) with flagsValid := false } }
+        | _ => none
+      else none
   | "shr", [.r n] =>               -- shift right by one
       match regOf n with
       | some (r, .w64) => some { s with x := { (s.x.set r (s.x.get r >>> 1)) with flagsValid := false } }
@@ -228,6 +287,7 @@ def jumpOf (i : Ins) (s : FState) : Option (Bool × Bool × String) :=
   | "jns", [.s l] => some (true, !s.x.sf, l)
   | "je", [.s l] => some (true, s.x.zf, l)
   | "jne", [.s l] => some (true, !s.x.zf, l)
+  | "jae", [.s l] => some (true, !s.x.cf, l)
   | _, _ => none
 
 /-- `1f` refers to the next `1:` (the cast-table strings use the local labels 1 and 2, forward only) -/
